@@ -44,7 +44,7 @@ def generate(rng, tier):
         k = b["call"]
         call = {"axes": k["axes"], "to": k["to"], "boundary": k["boundary"], "fill": k["fill"]}
         cases.append({"kind": 0, "ctor": b["ctor"], "dims": b["dims"], "vals": b["vals"], "call": call,
-                      "dtype": b.get("dtype", "float64")})
+                      "dtype": b.get("dtype", "float64"), "warmup": b.get("warmup", False)})
     # inverse: center data, to outer, fill 0
     n = 60 if tier == "quick" else 1000
     for _ in range(n):
@@ -93,6 +93,11 @@ def run_impl(case):
                       dims=[d for d, _ in case["dims"]])
     axis = k["axes"] if len(k["axes"]) > 1 else k["axes"][0]
     try:
+        if case.get("warmup"):
+            try:
+                g.cumsum((da * 3 + 1).isel({da.dims[0]: slice(None, None, -1)}), axis, **_kwargs(k))
+            except Exception:
+                pass
         r = g.cumsum(da, axis, **_kwargs(k))
         if case["kind"] == 1:
             r = g.diff(r, axis, to="center")
